@@ -3,7 +3,7 @@
    Oscore/*.v (written from the RFCs, extracted and run against libcoap on every check). *)
 From LibcoapV Require Import Base.Tactics Base.Bytes Wire.OptCodec Wire.Pdu Wire.PduProofs
   Oscore.Aes128 Oscore.Ccm Oscore.CcmProofs Oscore.Cbor Oscore.OscOption Oscore.OscOptionProofs
-  Oscore.Protect Oscore.ProtectProofs Oscore.Vectors.
+  Oscore.Protect Oscore.ProtectProofs Oscore.RangeProofs Oscore.DatagramProofs Oscore.Vectors.
 Local Open Scope Z_scope.
 
 (* ---- the compressed COSE object (OSCORE option value) ---- *)
@@ -13,6 +13,13 @@ Theorem C14_option_roundtrip : forall piv kidctx kid,
   osc_opt_decode (osc_opt_encode piv kidctx kid) = Some (piv, kidctx, kid).
 Proof. exact osc_opt_decode_encode. Qed.
 Print Assumptions C14_option_roundtrip.
+
+(* the decoder accepts only canonical encodings: a byte string that decodes IS the encoding of
+   what it decodes to, so two different option values never carry the same content *)
+Theorem C14_option_canonical : forall v piv kc kid,
+  wfb v -> osc_opt_decode v = Some (piv, kc, kid) -> osc_opt_encode piv kc kid = v.
+Proof. exact osc_opt_encode_decode. Qed.
+Print Assumptions C14_option_canonical.
 
 (* ---- class E / class U split followed by the recipient's merge restores the option list, for
    every ascending option list and every way of classing option numbers ---- *)
@@ -73,6 +80,46 @@ Theorem C14_response_roundtrip_without_observe : forall c s m req_piv send_piv s
 Proof. exact osc_response_roundtrip_plain. Qed.
 Print Assumptions C14_response_roundtrip_without_observe.
 
+(* ---- datagram level: protect, serialise for UDP, parse (C01's codec theorem), verify = the
+   original message; needs byte-valued context material (true of every derived context) ---- *)
+Theorem C14_request_datagram_roundtrip : forall c s m seq,
+  osc_paired c s -> osc_sec_bytes c -> msg_wf m -> osc_is_request (m_code m) = true ->
+  osc_has OSC_OPT (m_opts m) = false -> osc_has 35 (m_opts m) = false ->
+  0 <= seq < 1099511627776 ->
+  exists o, osc_protect_req c m seq = Some o /\
+            match parse UDP (serialize UDP o) with
+            | Some o' => osc_unprotect_req s o'
+            | None => None
+            end = Some m.
+Proof. exact osc_request_datagram_roundtrip. Qed.
+Print Assumptions C14_request_datagram_roundtrip.
+
+Theorem C14_response_datagram_roundtrip : forall c s m req_piv send_piv seq,
+  osc_paired c s -> osc_sec_bytes s -> msg_wf m -> 64 <= m_code m < 224 ->
+  osc_has OSC_OPT (m_opts m) = false -> osc_has 35 (m_opts m) = false ->
+  wfb req_piv -> 0 <= seq < 1099511627776 ->
+  exists o, osc_protect_resp s m req_piv send_piv seq = Some o /\
+            match parse UDP (serialize UDP o) with
+            | Some o' => osc_unprotect_resp c (m_token m) req_piv o'
+            | None => None
+            end = Some (osc_resp_view m (osc_resp_piv m send_piv seq)).
+Proof. exact osc_response_datagram_roundtrip. Qed.
+Print Assumptions C14_response_datagram_roundtrip.
+
+(* every context derived by HKDF from ids of at most 7 bytes is byte-valued *)
+Theorem C14_derived_context_bytes : forall secret salt idctx a b,
+  wfb a -> len a <= 7 -> wfb b -> len b <= 7 ->
+  match idctx with Some x => wfb x /\ len x <= 240 | None => True end ->
+  osc_sec_bytes (osc_derive secret salt idctx a b).
+Proof. exact osc_derive_bytes. Qed.
+Print Assumptions C14_derived_context_bytes.
+
+(* AES-CCM maps bytes to bytes *)
+Theorem C14_ciphertext_bytes : forall key nonce aad msg,
+  wfb key -> wfb nonce -> wfb aad -> wfb msg -> wfb (osc_ccm_enc key nonce aad msg).
+Proof. exact osc_ccm_enc_wfb. Qed.
+Print Assumptions C14_ciphertext_bytes.
+
 (* ---- nonce: injective in (sender id, sequence number) for ids up to 7 bytes and sequence
    numbers below 2^40 ---- *)
 Theorem C14_nonce_injective : forall id seq id' seq' iv,
@@ -122,6 +169,12 @@ Theorem C14_other_recipient_rejected : forall dec c s m seq o0,
   sc_rid s <> sc_sid c -> osc_unprotect_req_gen dec s o0 = None.
 Proof. exact osc_request_other_recipient. Qed.
 Print Assumptions C14_other_recipient_rejected.
+
+(* the handler of an OSCORE-only resource sees nothing but successfully verified requests *)
+Theorem C14_oscore_only_gate : forall dec s o m',
+  osc_server_deliver dec s true o = Some m' -> osc_unprotect_req_gen dec s o = Some m'.
+Proof. exact osc_only_gate. Qed.
+Print Assumptions C14_oscore_only_gate.
 
 (* ---- tamper rejection UNDER AN ASSUMED IDEAL AEAD ----
    The premise [forall n a c p, dec K n a c = Some p -> sent n a c] (ideal ciphertext integrity:
@@ -191,6 +244,21 @@ Theorem C14_response_tamper_rejected_under_ideal_aead : forall (dec : osc_aead_d
          end.
 Proof. exact osc_response_tamper_rejected. Qed.
 Print Assumptions C14_response_tamper_rejected_under_ideal_aead.
+
+Theorem C14_response_accepted_content_under_ideal_aead :
+  forall (dec : osc_aead_dec) (K : bytes) (sent : bytes -> bytes -> bytes -> Prop),
+  (forall n a c p, dec K n a c = Some p -> sent n a c) ->
+  forall c tok req_piv n0 a0 c0 o m' pt0 code inner pl,
+  sc_rkey c = K ->
+  (forall n a ct, sent n a ct -> n = n0 /\ a = a0 /\ ct = c0) ->
+  dec K n0 a0 c0 = Some pt0 ->
+  osc_parse_plaintext pt0 = Some (code, inner, pl) ->
+  osc_unprotect_resp_gen dec c tok req_piv o = Some m' ->
+  exists piv,
+    m' = mkMsg (m_type o) code (m_mid o) (m_token o)
+           (osc_merge (osc_kept_outer (m_opts o)) (osc_fix_observe piv inner)) pl.
+Proof. exact osc_response_accepted_content. Qed.
+Print Assumptions C14_response_accepted_content_under_ideal_aead.
 
 (* non-vacuity: the ideal functionality "decrypt only the one emitted triple" meets the premise,
    and with it the genuine RFC 8613 C.4 request is accepted *)
